@@ -21,7 +21,8 @@ RULE = ('seeded schedules: IMU stamps uniform / jittered / with 1..3 data gaps, 
         'altitude modes; sensor models none / bias / full; non-trivial = anything but (uniform IMU, all epochs on stamps >= 1 '
         'interval apart, time_step 1 s), the one schedule of the existing tests; distinct = distinct seeds'
         ' Round 3: every third schedule is run a second time with the same measurement / model objects and judged again.'
-        " Round 4: the filter's internal integrator starts with a capacity of 2..41 rows in every other run (growth boundaries inside short records); the two sensor triads configured independently (none / bias / scale-misalignment only / full); records of 1..3 increments.")
+        " Round 4: the filter's internal integrator starts with a capacity of 2..41 rows in every other run (growth boundaries inside short records); the two sensor triads configured independently (none / bias / scale-misalignment only / full); records of 1..3 increments."
+        ' Round 5: measurement tables whose rows are not in time order; with_altitude as numpy.bool_ in 40 % of the schedules; sensors listed in any order.')
 ASSUMPTIONS = ['termination is decided as bounded progress: while-header visits <= 2 (increments + epochs in span) + 4 (sys.monitoring), '
                'never by wall clock', 'two streams of the same measurement class are outside the documented interface and not generated']
 REQUIRED_OBS = ['reruns_with_same_objects', 'schedules_with_permuted_tables', 'schedules_with_tiny_record', 'schedules_with_unsorted_measurement_rows', 'runs_with_small_integrator_capacity', 'schedules_with_independent_triad_models', 'runs_completed', 'loop_iterations', 'integrate_events', 'predict_events', 'hit_events', 'correct_events',
